@@ -15,6 +15,7 @@ import (
 	"os"
 	"runtime"
 	"sort"
+	"time"
 
 	"github.com/theQRL/go-qrllib/common"
 	"github.com/theQRL/go-qrllib/misc"
@@ -68,7 +69,8 @@ func (c Cfg) String() string {
 
 type Res struct {
 	States, Transitions, Signs, Jumps, Refusals, Events, Verifies, RefCompares int64
-	NontrivialJumps                                                            int64 // SetIndex with j > idx+1 that succeeded
+	NontrivialJumps                                                            int64  // SetIndex with j > idx+1 that succeeded
+	CappedAt                                                                   uint64 // Lean: first index not covered because the time budget ran out (0 = complete)
 	TraceDigest                                                                string
 	Trace                                                                      []uint64 // only when KeepTrace
 	Fails                                                                      []Fail
@@ -690,5 +692,71 @@ func Chain(c Cfg, maxDist uint64, everyStateCheap bool, keepTrace bool, capIdx u
 	}
 	res.TraceDigest = hex.EncodeToString(e.sum())
 	res.Trace = e.evbuf
+	return res
+}
+
+// Lean walks the index range [from,to) of a key in symbolic mode with the cheapest possible oracle:
+// SetIndex(from) on a fresh key (one forward jump), then Sign at every index; every signature must carry
+// its index and exactly the sibling identities of that index as authentication path, and the symbolic
+// algebra must never be violated. No snapshots, no clones: this is what reaches heights 26..30.
+func Lean(c Cfg, from, to uint64, budget time.Duration) *Res {
+	res := &Res{}
+	c.Symbolic = true
+	e := &explorer{cfg: c, res: res}
+	e.setup()
+	xmss.VerifSeam = nil // no trace: only the algebra's own diagnostics
+	defer func() { xmss.VerifSeam = nil; xmss.VerifSymbolic = false }()
+	deadline := time.Now().Add(budget)
+	k := NewKey(c)
+	e.checkKey(k)
+	if from > 0 {
+		op := Op{Kind: "setindex", J: uint32(from)}
+		if o := apply(k, op); o.kind != "ok" {
+			e.fail("C01", "lean-jump-refused", []Op{op}, map[string]any{"observed": o.kind})
+			return res
+		}
+		res.Jumps++
+		res.NontrivialJumps++
+		res.Transitions++
+	}
+	authLen := 32 * c.H
+	for i := from; i < to; i++ {
+		if i&0xFFFF == 0 && budget > 0 && time.Now().After(deadline) {
+			res.CappedAt = i
+			break
+		}
+		msg := M0
+		if i&1 == 1 {
+			msg = M1
+		}
+		sig, err := k.Sign(msg)
+		res.Transitions++
+		res.States++
+		ops := []Op{{Kind: "setindex", J: uint32(from)}, {Kind: "signs", J: uint32(i - from + 1)}}
+		if err != nil || len(sig) < authLen+4 {
+			e.fail("C01", "lean-sign-failed", ops, map[string]any{"index": i, "err": fmt.Sprint(err)})
+			break
+		}
+		res.Signs++
+		if uint64(binary.BigEndian.Uint32(sig[:4])) != i {
+			e.fail("C02", "signature-index-field", ops, map[string]any{"expected": i, "observed": binary.BigEndian.Uint32(sig[:4])})
+			break
+		}
+		auth := sig[len(sig)-authLen:]
+		bad := -1
+		for t := 0; t < c.H; t++ {
+			x := uint32(i>>uint(t)) ^ 1
+			a := auth[32*t : 32*t+32]
+			// identity layout: "VSYMNODE" | t (4) | x (4) | pattern
+			if binary.BigEndian.Uint32(a[8:12]) != uint32(t) || binary.BigEndian.Uint32(a[12:16]) != x || a[0] != 'V' || a[7] != 'E' || a[16] != byte(0xC3^16) {
+				bad = t
+				break
+			}
+		}
+		if bad >= 0 || len(xmss.VerifDiag) > 0 {
+			e.fail("C01", fmt.Sprintf("wrong-authentication-path-in-signature level=%d", bad), ops, map[string]any{"index": i, "level": bad, "diagnostics": append([]string(nil), xmss.VerifDiag...)})
+			break
+		}
+	}
 	return res
 }
